@@ -75,3 +75,10 @@ CLAIMED["C14"] = dict(category=_MC,
          "erasure of <=2 unknown components with the complete completion sets (26196 cases); the real tpe()/reauthorize are run on each.",
     note="completions range over the 1920-environment model universe; permission queries (query_resource/principal/action) are not driven yet. A genuine defect found by this check "
          "(policy_set returned originals) was repaired in /repo commit 5ae75d7.")
+ENGINES[0]["serves_properties"].append("C15")
+CLAIMED["C15"] = dict(category=_MC,
+    text="Batched.tla is the loader-driven loop as a state machine (loaded set, iteration count, Iterate/Finish) with the property's four clauses over the outcomes for budgets 0..n "
+         "(a reported decision is the ordinary one; small budgets say 'insufficient'; decisions persist under larger budgets; a budget above the number of distinct uids decides). "
+         "TLC model-checks the abstract loop, generates 4272 (policy set, environment, loader behaviour) cases, and validates for each the outcomes of all budgets 0..9 and the "
+         "recorded loader calls of the real is_authorized_batched against the state machine, with the expected decision re-derived by the reference semantics.",
+    note="8 environments x 178 valid policy sets x 3 deterministic loaders (exact / prefetch-all / one extra per call); the harness loader never returns an entity twice.")
